@@ -259,17 +259,17 @@ Definition avc_step (s : slots) (op : avc_op) : slots * sx :=
       | Some (ONalu n) =>
           match nalu_unmarshal data with
           | Ok n' => (slot_set s k (ONalu n'), SL [SZ 0; s_nalu0 n'])
-          | Err e => (s, SL [SZ 1; SZ (Z.of_N e)])
+          | Err _ => (s, SL [SZ 1])
           | Panic _ => (s, SL [SZ 2])
           end
       | Some (ORec r) =>
           let (r', x) := rec_unmarshal r data in
           (slot_set s k (ORec r'),
-           match x with Ok _ => SL [SZ 0] | Err e => SL [SZ 1; SZ (Z.of_N e)] | Panic _ => SL [SZ 2] end)
+           match x with Ok _ => SL [SZ 0] | Err _ => SL [SZ 1] | Panic _ => SL [SZ 2] end)
       | Some (OSample l ns) =>
           let (ns', x) := sample_unmarshal l ns data in
           (slot_set s k (OSample l ns'),
-           match x with Ok _ => SL [SZ 0] | Err e => SL [SZ 1; SZ (Z.of_N e)] | Panic _ => SL [SZ 2] end)
+           match x with Ok _ => SL [SZ 0] | Err _ => SL [SZ 1] | Panic _ => SL [SZ 2] end)
       | None => (s, SL [SZ (-1)])
       end
   | AMarshal k =>
@@ -356,14 +356,14 @@ Definition s_rec_fields (r : avcrec) : list sx :=
 Definition obs_rdec (x : avcrec * res unit) : sx :=
   match x with
   | (r, Ok _) => SL (SZ 0 :: s_rec_fields r)
-  | (r, Err e) => SL (SZ 1 :: sN e :: s_rec_fields r)
+  | (r, Err _) => SL (SZ 1 :: s_rec_fields r)
   | (_, Panic _) => s_panic
   end.
 
 Definition obs_sdec (x : list nalu * res unit) : sx :=
   match x with
   | (ns, Ok _) => SL [SZ 0; s_nalus ns]
-  | (ns, Err e) => SL [SZ 1; sN e; s_nalus ns]
+  | (ns, Err _) => SL [SZ 1; s_nalus ns]
   | (_, Panic _) => s_panic
   end.
 
@@ -434,21 +434,21 @@ Fixpoint p_cnalus (l : list sx) : option (list nalu) :=
 Definition s_nalu_sum (n : nalu) : sx := SL [sN (nref n); sN (ntype n); sN (lenN (ndata n)); sN (adler32 (ndata n))].
 Definition s_nalus_sum (ns : list nalu) : sx := SL (map s_nalu_sum ns).
 Definition s_res (x : res unit) : sx :=
-  match x with Ok _ => SL [SZ 0] | Err e => SL [SZ 1; sN e] | Panic _ => s_panic end.
+  match x with Ok _ => SL [SZ 0] | Err _ => SL [SZ 1] | Panic _ => s_panic end.
 
 Definition run_c12 (c : sx) : sx :=
   match c with
   | SL [SZ 1; SB data] =>
       match nalu_unmarshal data with
       | Ok n => s_ok [sN (nref n); sN (ntype n); SB (ndata n); SB (nalu_marshal n)]
-      | Err e => s_err e
+      | Err _ => SL [SZ 1]
       | Panic _ => s_panic
       end
   | SL [SZ 2; SZ r; SZ t; SB d] =>
       let b := nalu_marshal (mk_nalu (Z.to_N r) (Z.to_N t) d) in
       match nalu_unmarshal b with
       | Ok n => s_ok [SB b; sN (nref n); sN (ntype n); SB (ndata n); sN (nalu_size n)]
-      | Err e => s_ok [SB b; s_err e]
+      | Err _ => s_ok [SB b; SL [SZ 1]]
       | Panic _ => s_panic
       end
   | SL [SZ 3; SZ l; SL ns] =>
